@@ -810,6 +810,9 @@ def integrate_setup(mk, n, kind, timedep):
         want = _mI(mk) * (_comm(Hs, yh) if isdop else ref.matmul(Hs, yh))
         mk.eq("rhs handed to the stepper == -i H(t) y  [-i [H(t), y]]", st.f(s, yh.reshape(-1)), want.reshape(-1))
         mk.same("integrator family", st.integrator[0], "dop853")
+        # scipy caps the internal steps of one integrate() call at 500 unless told otherwise: with a cap a long
+        # update would stop early and silently report an earlier time
+        mk.same("no cap on the number of internal steps of one update (nsteps=0)", st.integrator[1].get("nsteps", "scipy default (500)"), 0)
         # solout plumbing
         mk.same("solout installed for compute callbacks", callable(st.solout), True)
         st.solout(s, y.reshape(-1))
@@ -836,6 +839,16 @@ def integrate_setup(mk, n, kind, timedep):
         want = U @ p0 @ U.conj().T if isdop else U @ p0
         mk.eq("integrated state vs (time-ordered) exponential", evo.pt, want, tol=1e-4)
         mk.eq("evo.t", evo.t, t1)
+        if not timedep:
+            # [numeric-only] one long update (thousands of adaptive steps): it must arrive at the requested time
+            import warnings as _w
+            evoL = qe.Evolution(p0, _q(np.asarray(H) * 40.0), t0=0.0, method="integrate")
+            with _w.catch_warnings():
+                _w.simplefilter("ignore")
+                evoL.update_to(60.0)
+            mk.eq("[numeric-only] long update: evo.t == requested time", evoL.t, 60.0, tol=1e-9)
+            UL = sla.expm(-1j * np.asarray(H, dtype=complex) * 40.0 * 60.0)
+            mk.eq("[numeric-only] long update: state == exp(-iHT) p0", evoL.pt, UL @ p0 @ UL.conj().T if isdop else UL @ p0, tol=1e-2)
         pt = np.asarray(evo.pt)
         if isdop:
             mk.eq("trace conserved", ref.trace(pt), ref.trace(p0), tol=1e-5)
